@@ -6,7 +6,13 @@ Oracle on the implementation, on two real files in a tempfile.mkdtemp() director
       original output tree with every addressed position masked (an argument is masked together with the default
       that belongs to it);
   some address does not resolve  ->  the call raises and neither file changes.
-Failures are classified by finding_class_C14 (Coq, through the driver); class None = inside the proved region."""
+  eval mode: a statement position that was addressed carries `name: Literal[<the evaluated values>]` (through the template).
+  A point may ask for input file == output file (two locations of one module): then only that file exists.
+Failures are classified by finding_class_C14 (Coq, through the driver); class None = inside the proved region.
+A recorded finding class stands for the kinds of failure it describes only (NEVER_ABSORBED, eval_surrogate): the safety
+clauses of the property (input file untouched, an error leaves the output file alone, no stray files, nothing is written
+that the formatter rejects) are broken by none of the recorded classes, so such a failure is a violation whatever class
+the call falls in."""
 import ast
 import collections
 import os
@@ -105,9 +111,50 @@ def _new_node_wrong(src, dst, new, wrap):
         return "could not build the expected node: %s" % type(e).__name__
 
 
+# kinds of failure no recorded finding class stands for: every recorded class is about WHICH node ends up at / around
+# the addressed position, or about a refused call that writes nothing; none of them modifies the input file, writes
+# after/despite an error, leaves files behind, or writes text that the formatter emit.file passes everything through
+# rejects.  (An unresolved address that is not reported IS what the recorded lookup/rewrite classes describe, and text
+# that black accepts although CPython does not - `0` glued to `b` gives `0b` - is the recorded gluing of an argument.)
+NEVER_ABSORBED = {"input-modified", "stray-files", "unresolved-written", "raised-after-write",
+                  "output-rejected-by-formatter"}
+
+
+def _formatter_accepts(text):
+    """does black (the formatter every written file has been through) accept this text"""
+    import black
+    try:
+        black.format_str(text, mode=black.Mode())
+        return True
+    except black.NothingChanged:
+        return True
+    except Exception:  # noqa  (black.InvalidInput and friends)
+        return False
+
+
+def _eval_expected(isrc, ip, name, wrap):
+    """`name: Literal[values]` (annotation through the template), built without doctrans; None = not judged"""
+    _, v = fam_syncprops.evaluated(isrc, ip)
+    lit = fam_syncprops.literal_of(v) if v is not None else None
+    if lit is None:
+        return None
+    try:
+        want = ast.AnnAssign(target=ast.Name(id=name, ctx=ast.Store()), annotation=_expected_ann(lit, wrap), value=None,
+                             simple=1)
+        # as it reads back from a file (a negative number is a Constant when built, a UnaryOp when parsed)
+        return ast.parse(ast.unparse(want)).body[0]
+    except Exception:  # noqa
+        return None
+
+
 def impl_holds(pt):
-    """C14 at one point on the real code"""
-    ev, isrc, ips, osrc, ops, wrap = pt["args"]
+    return impl_judge(pt)[:2]
+
+
+def impl_judge(pt):
+    """C14 at one point on the real code -> (holds, what, kind of failure)"""
+    ev, isrc, ips, osrc, ops, wrap = pt["args"][:6]
+    same_file = len(pt["args"]) > 6 and bool(pt["args"][6])
     m = impl()
     itree0, otree0 = ast.parse(isrc), ast.parse(osrc)
     pos_o, _, _keep = paths(otree0, [])
@@ -118,6 +165,9 @@ def impl_holds(pt):
     d = tempfile.mkdtemp(prefix="verif_c14_")
     try:
         ipath, opath = os.path.join(d, "input_file.py"), os.path.join(d, "output_file.py")
+        if same_file:
+            assert isrc == osrc
+            ipath = opath
         with open(ipath, "wb") as f:
             f.write(isrc.encode("utf-8"))
         with open(opath, "wb") as f:
@@ -134,40 +184,76 @@ def impl_holds(pt):
         leftovers = sorted(set(os.listdir(d)) - {"input_file.py", "output_file.py"})
     finally:
         shutil.rmtree(d, ignore_errors=True)
-    if in_after != isrc.encode("utf-8"):
-        return False, "the input file was modified"
+    if not same_file and in_after != isrc.encode("utf-8"):
+        return False, "the input file was modified", "input-modified"
     if leftovers:
-        return False, "files left behind: %s" % leftovers
+        return False, "files left behind: %s" % leftovers, "stray-files"
     if not resolves:
         if exc is None:
-            return False, "an address does not resolve, yet no error was reported"
+            return False, "an address does not resolve, yet no error was reported", "unresolved-no-error"
         if out_after != osrc.encode("utf-8"):
-            return False, "an address does not resolve (error %s) and the output file was still written" % exc
-        return True, ""
+            return False, "an address does not resolve (error %s) and the output file was still written" % exc, \
+                "unresolved-written"
+        return True, "", None
     if exc is not None:
         if out_after != osrc.encode("utf-8"):
-            return False, "raised %s after changing the output file" % exc
-        return False, "every address resolves but the call raised %s (nothing written)" % exc
+            return False, "raised %s after changing the output file" % exc, "raised-after-write"
+        return False, "every address resolves but the call raised %s (nothing written)" % exc, "raised-nothing-written"
     try:
         otree1 = ast.parse(out_after.decode("utf-8"))
     except SyntaxError:
-        return False, "the output file no longer parses"
+        if not _formatter_accepts(out_after.decode("utf-8")):
+            return False, "the output file no longer parses (black rejects what was written too)", \
+                "output-rejected-by-formatter"
+        return False, "the output file no longer parses", "output-unparsable"
     # every addressed position carries the node addressed in the input (annotation through the template)
+    _, inv1, _k1 = paths(otree1, [])
     if not ev:
-        _, inv1, _k1 = paths(otree1, [])
         for src, dst in zip(in_targets, out_targets):
             new = inv1.get(tuple(pos_o[id(dst)]))
             bad = _new_node_wrong(src, dst, new, wrap)
             if bad:
-                return False, bad
+                return False, bad, "new-node-wrong"
+    else:
+        # eval mode, statement positions (an argument position is the recorded eval-mode finding): the last pair that
+        # addresses a position decides what it carries
+        last = {}
+        for ip, op, dst in zip(ips, ops, out_targets):
+            last[tuple(pos_o[id(dst)])] = (ip, op, dst)
+        for p, (ip, op, dst) in last.items():
+            if isinstance(dst, ast.arg):
+                continue
+            want = _eval_expected(isrc, ip, op.split(".")[-1].strip(), wrap)
+            new = inv1.get(p)
+            if want is not None and (new is None or dump_masked(new, set()) != dump_masked(want, set())):
+                return False, "the addressed statement is not `%s`" % ast.unparse(want), "eval-literal-wrong"
     for t in out_targets:
         p = pos_o[id(t)]
         if not _apply_mask(otree1, p):
-            return False, "the addressed position %s no longer exists in the output" % (p,)
+            return False, "the addressed position %s no longer exists in the output" % (p,), "position-gone"
         _apply_mask(otree0, p)
     if dump_masked(otree0, set()) != dump_masked(otree1, set()):
-        return False, "a node other than the addressed ones changed"
-    return True, ""
+        return False, "a node other than the addressed ones changed", "other-node-changed"
+    return True, "", None
+
+
+def eval_surrogate(pt):
+    """an eval-mode call seen as the plain call it amounts to: sync_property builds `name: Literal[values]` (name = last
+    segment of the output address) and proceeds as if that statement had been found in the input file.  The recorded
+    class eval-mode-replacement describes what is particular to eval mode (no value: an argument's default slot gets a raw
+    string; an attribute's value is dropped); any OTHER failure of an eval-mode call is classified as this plain call is."""
+    ev, isrc, ips, osrc, ops, wrap = pt["args"][:6]
+    lines, names = [], []
+    for ip, op in zip(ips, ops):
+        name = op.split(".")[-1].strip()
+        want = _eval_expected(isrc, ip, name, None)
+        if want is None or not name.isidentifier():
+            return None
+        lines.append(ast.unparse(want))
+        names.append(name)
+    if not lines or len(ips) != len(ops):
+        return None
+    return {"fn": "sync_properties", "args": [False, "\n".join(lines) + "\n", names, osrc, list(ops), wrap]}
 
 
 def check_case(case):
@@ -190,9 +276,21 @@ def oracle(rng, tier):
             continue
         ce = loads(c)
         cls = None if ce == "none" else unhx(ce[1])
-        ok, what = impl_holds(p)
+        ok, what, kind = impl_judge(p)
         n_eval += 1
-        strata = "%s:%s:%s" % (p["tags"][0], p["tags"][1], p["tags"][2])
+        if not ok and cls is not None:
+            if kind in NEVER_ABSORBED:
+                hist["not-absorbed:%s:%s" % (cls, kind)] += 1
+                what += " [a failure of this kind is not what the recorded class %s describes]" % cls
+                cls = None
+            elif kind == "eval-literal-wrong":
+                sur = eval_surrogate(p)
+                sc = run_model([dumps([Sym("c14_class")] + fam_syncprops.wire_args(sur["args"]))])[0] if sur else None
+                if sc is not None and sc != "out-of-domain" and loads(sc) == "none":
+                    hist["not-absorbed:%s:%s" % (cls, kind)] += 1
+                    what += " [the plain call with this Literal written in the input file is inside the proved region]"
+                    cls = None
+        strata = ":".join(p["tags"][:4])
         hist["%s:%s:%s" % (strata, "holds" if ok else "fails", cls or "in-guard")] += 1
         if cls is None:
             seen.add(dumps([p["args"][0], p["args"][1], list(p["args"][2]), p["args"][3], list(p["args"][4]),
@@ -205,7 +303,8 @@ def oracle(rng, tier):
         "evaluations": n_eval,
         "distinct_nontrivial": len(seen),
         "rule": "pairs of generated/hand-written modules x 1..3 (input, output) addresses (arguments positional and "
-                "keyword-only, class attributes, module-level assignments, non-existing) x template on/off x eval on/off, run on "
+                "keyword-only, class attributes, module-level assignments, non-existing) x template on/off x eval on/off "
+                "(evaluated values incl. members equal across types and repeated members) x two files / one file, run on "
                 "real temporary files; non-trivial = distinct call inside the proved region (guard_C14)",
         "failures": failures,
         "model_impl_property_disagreements": disagree,
